@@ -26,9 +26,14 @@ func (c context) Name(node pgs.Node) pgs.Name {
 		}
 		return PGGUpperCamelCase(en.Name())
 	case pgs.Field: // field names cannot conflict with other generated methods
+		if m := en.Message(); m != nil {
+			fields, _ := uniqueNames(m)
+			return fields[en.FullyQualifiedName()]
+		}
 		return replaceProtected(PGGUpperCamelCase(en.Name()))
 	case pgs.OneOf: // oneof field names cannot conflict with other generated methods
-		return replaceProtected(PGGUpperCamelCase(en.Name()))
+		_, oneofs := uniqueNames(en.Message())
+		return oneofs[en.FullyQualifiedName()]
 	case pgs.EnumValue: // EnumValue are prefixed with the enum name
 		if _, ok := en.Enum().Parent().(pgs.File); ok {
 			return joinNames(c.Name(en.Enum()), en.Name())
@@ -46,19 +51,54 @@ func (c context) Name(node pgs.Node) pgs.Name {
 func (c context) OneofOption(field pgs.Field) pgs.Name {
 	n := joinNames(c.Name(field.Message()), c.Name(field))
 
-	for _, msg := range field.Message().Messages() {
-		if c.Name(msg) == n {
-			return n + "_"
+	for conflict := true; conflict; {
+		conflict = false
+		for _, msg := range field.Message().Messages() {
+			if c.Name(msg) == n {
+				n, conflict = n+"_", true
+			}
 		}
-	}
-
-	for _, en := range field.Message().Enums() {
-		if c.Name(en) == n {
-			return n + "_"
+		for _, msg := range field.Message().MapEntries() {
+			if c.Name(msg) == n {
+				n, conflict = n+"_", true
+			}
+		}
+		for _, en := range field.Message().Enums() {
+			if c.Name(en) == n {
+				n, conflict = n+"_", true
+			}
 		}
 	}
 
 	return n
+}
+
+// uniqueNames resolves the struct field names of a message's fields and oneofs
+// the way protoc-gen-go does: in declaration order, underscores are appended
+// until the name collides with neither a generated method, an earlier field,
+// nor (for fields) an earlier field's getter.
+func uniqueNames(m pgs.Message) (fields, oneofs map[string]pgs.Name) {
+	used := make(map[pgs.Name]bool, len(protectedNames))
+	for n := range protectedNames {
+		used[n] = true
+	}
+	unique := func(n pgs.Name, getter bool) pgs.Name {
+		for used[n] || (getter && used["Get"+n]) {
+			n += "_"
+		}
+		used[n] = true
+		used["Get"+n] = getter
+		return n
+	}
+
+	fields, oneofs = map[string]pgs.Name{}, map[string]pgs.Name{}
+	for _, f := range m.Fields() {
+		fields[f.FullyQualifiedName()] = unique(PGGUpperCamelCase(f.Name()), true)
+		if o := f.OneOf(); o != nil && o.Fields()[0] == f {
+			oneofs[o.FullyQualifiedName()] = unique(PGGUpperCamelCase(o.Name()), false)
+		}
+	}
+	return fields, oneofs
 }
 
 func (c context) ServerName(s pgs.Service) pgs.Name {
